@@ -217,11 +217,11 @@ CHECKS = {
     "C09": dict(
         level="exploration",
         rule=("library parser (first pass, iteration through its decode formatter, typed extraction) vs the harness' reference header walker, hand-written object size table and measurement decoders, on: "
-              "A1 every fragment the real master writes for generated user requests (class / all-objects / 8- and 16-bit range / limited-count reads over every table variation, five command types with 8/16-bit indices, three time-sync procedures, dead-bands, restarts, empty-response functions, automatic tasks) - READ header lists compared with what was asked; "
+              "A1 every fragment the real master writes for generated user requests (class / all-objects / 8- and 16-bit range / limited-count reads over every table variation, five command types with 8/16-bit indices, three time-sync procedures, dead-bands, restarts, empty-response functions, automatic tasks) - READ header lists, command objects (index width, every CROB / analog-output field), OPEN_FILE / file block / CLOSE_FILE / authentication objects compared octet for octet with a hand-written encoding of what was asked; "
               "A2 every response and unsolicited fragment the real outstation writes for generated databases (all types/variations, boundary values) and requests; A3 device attributes (all seven value types, private and default sets, values at the integer width boundaries, strings up to 255 octets) defined in the real outstation and read one by one, as a whole set, as a variation list and written by a scripted master: object bytes against a hand-written encoding, the value handed to the master's handler, write verdicts, read-after-write, series termination; A4 analog dead-bands written by the real master (three variations, 8/16-bit indices), applied by the real outstation (application callbacks) and read back by the real master; P grammar-generated fragments x both zero-length-string options; plus 6 truncations / extensions / bit flips / octet substitutions of every captured fragment"),
         runs=[dict(check="c09", timeout_s=900),
               dict(check="c09", flavor="miri", tier="thorough", scale=0.0004, extra=["--direct-only"], timeout_s=300)],
-        required=["A1_open_file_request_as_asked", "A2_relative_event_times_as_written", "A2_truncated_control_echo_checked", "A1_file_requests_checked", "A1_fragments_agree", "A1_read_request_as_asked", "A2_fragments_agree", "A2_objects_agree", "A2_measurements_agree", "P_fragments_agree", "P_objects_agree", "P_objects_rejected", "A1_mutated_objects_rejected", "A2_mutated_objects_rejected", "A2_mutated_fragments_agree", "A3_attribute_read_ok", "A3_attribute_delivered_ok", "A3_attribute_set_read_ok", "A3_variation_list_ok", "A3_attribute_write_accepted_ok", "A3_attribute_write_rejected_ok", "A3_attribute_after_write_ok", "A3_read_ok_code3", "A4_dead_band_write_ok", "A4_dead_band_read_ok", "A3_default_set_attribute_named_ok"],
+        required=["A1_command_request_as_asked", "A1_file_request_as_asked", "A1_open_file_request_as_asked", "A2_relative_event_times_as_written", "A2_truncated_control_echo_checked", "A1_file_requests_checked", "A1_fragments_agree", "A1_read_request_as_asked", "A2_fragments_agree", "A2_objects_agree", "A2_measurements_agree", "P_fragments_agree", "P_objects_agree", "P_objects_rejected", "A1_mutated_objects_rejected", "A2_mutated_objects_rejected", "A2_mutated_fragments_agree", "A3_attribute_read_ok", "A3_attribute_delivered_ok", "A3_attribute_set_read_ok", "A3_variation_list_ok", "A3_attribute_write_accepted_ok", "A3_attribute_write_rejected_ok", "A3_attribute_after_write_ok", "A3_read_ok_code3", "A4_dead_band_write_ok", "A4_dead_band_read_ok", "A3_default_set_attribute_named_ok"],
         thorough_scale=12.0,
         abnormal_exit_is_violation=True,
         assumptions=HARNESS_TRUST,
